@@ -39,6 +39,9 @@ def run_case(ctx, f, batch0, keys, fail, same_a=False):
     trace = []
     ns = Obj("ns", _BATCH_WATCH=batch0, self_or_cls=target, cls=Obj("Cls", __name__="Cls"),
              __getitem__=dict(known), __contains__=list(known), __iter__=list(known))
+    # the instance route: the namespace of an instance nobody watches
+    target.attrs["_param__private"] = Obj("private", watchers={}, values=dict(prev))
+    ns.attrs["self"] = target
 
     def hook(fn, args, kwargs):
         if fn == "hasattr" and len(args) == 2:
@@ -50,6 +53,8 @@ def run_case(ctx, f, batch0, keys, fail, same_a=False):
             if fail and fail[0] == "reject" and args[1] == fail[1] and args[2] is not False:
                 raise _Raise("ValueError")
             return None
+        if fn == "Comparator.is_equal" and len(args) == 2:
+            return args[0] is args[1]
         if fn == "self_._batch_call_watchers":
             trace.append(("flush", "flag=%s" % ns.attrs["_BATCH_WATCH"], "", "", "mode2=%s" % ev2.attrs["_mode"]))
             return None
@@ -65,7 +70,7 @@ def run_case(ctx, f, batch0, keys, fail, same_a=False):
 
 def update_model(ctx):
     f = ctx.repo.func(P + "Parameters._update")
-    problems = {"C04": [], "C05": [], "C02": [], "C03": []}
+    problems = {"C04": [], "C05": [], "C02": [], "C03": [], "C01": []}
     n = 0
     orders = [["a"], ["a", "b"], ["a", "e"], ["e", "a"], ["a", "e", "b"], ["b", "a", "e"]]
     for batch0 in (False, True):
@@ -103,6 +108,9 @@ def update_model(ctx):
                 main_sets = [t for t in sets if not (t[1] == "e" and t[3] == "mode=reset")]
                 if [t[1] for t in main_sets] != [name_of(k) for k in upto]:
                     problems["C02"].append("%s: keys assigned %s, specification %s" % (desc, [t[1] for t in main_sets], [name_of(k) for k in upto]))
+                    if [x for x in upto if name_of(x) not in [t[1] for t in main_sets]]:
+                        problems["C01"].append("%s: the value given for %s never reaches the validating setter (an equal-comparing value of the wrong type, or one that the "
+                                               "constraints no longer admit, is accepted on this route only)" % (desc, [x for x in upto if name_of(x) not in [t[1] for t in main_sets]]))
                 if any(t[2] != "flag=True" for t in main_sets):
                     problems["C04"].append("%s: a key is assigned while the batching flag is not raised" % desc)
                 # outcome
